@@ -220,7 +220,8 @@ fn gen_hex(rng: &mut Rng) -> Vec<String> {
 
 pub fn gen_lexemes(rng: &mut Rng) -> Vec<String> {
     let mut o = vec![];
-    for _ in 0..rng.below(3) { o.extend(v(&["import", *rng.pick(&["\"pe\"", "\"math\"", "\"hash\""])])); }
+    if rng.chance(2, 3) { o.extend(v(&["import", "\"pe\"", "import", "\"math\""])); }
+    for _ in 0..rng.below(2) { o.extend(v(&["import", *rng.pick(&["\"pe\"", "\"math\"", "\"hash\""])])); }
     if rng.chance(1, 8) { o.extend(v(&["include", "\"other.yar\""])); }
     let many = rng.chance(1, 4);
     let nrules = 1 + rng.below(if many { 4 } else { 2 });
@@ -258,6 +259,7 @@ pub fn gen_lexemes(rng: &mut Rng) -> Vec<String> {
         o.extend(v(&["condition", ":"]));
         let depth = if rng.chance(1, 5) { 5 } else { 1 + rng.below(3) as u32 };
         o.extend(gen_bool(rng, depth, &pats));
+        if !pats.is_empty() && rng.chance(2, 3) { o.extend(v(&["or", "any", "of", "them"])); }
         o.push("}".into());
     }
     o
@@ -371,6 +373,7 @@ pub fn behaviour(src: &[u8]) -> String {
 
 pub struct FmtObs {
     pub same_behaviour: bool,
+    pub in_compiles: bool,
     pub in_sig: Vec<(SyntaxKind, Vec<u8>)>, pub out1: Outcome, pub out1_text: Vec<u8>,
     pub out1_sig: Vec<(SyntaxKind, Vec<u8>)>, pub out2: Outcome, pub out2_text: Vec<u8>,
 }
@@ -383,8 +386,11 @@ pub fn observe(src: &[u8], o: &Opts) -> FmtObs {
         let (o2, t2) = run_format(&out1_text, o);
         (s, o2, t2)
     } else { (vec![], Outcome::Ok(false), vec![]) };
-    let same_behaviour = if let Outcome::Ok(_) = out1 { src == out1_text.as_slice() || behaviour(src) == behaviour(&out1_text) } else { true };
-    FmtObs { same_behaviour, in_sig, out1, out1_text, out1_sig, out2, out2_text }
+    let (same_behaviour, in_compiles) = if let Outcome::Ok(_) = out1 {
+        let b = behaviour(src);
+        (src == out1_text.as_slice() || b == behaviour(&out1_text), !b.starts_with("errors:") && !b.starts_with("panic:"))
+    } else { (true, false) };
+    FmtObs { same_behaviour, in_compiles, in_sig, out1, out1_text, out1_sig, out2, out2_text }
 }
 
 /// The clauses of the property that fail on an observation (same definitions as
@@ -782,6 +788,7 @@ pub fn run(args: &[String]) -> i32 {
             let ob = observe(&src_bytes, &o);
             let mut it = Interner::new();
             let failing = failing_clauses(&src_bytes, &ob);
+            if ob.in_compiles { stats.inc("behaviour_compared_on_compiling_source"); }
             match &ob.out1 { Outcome::Ok(m) => { stats.inc("fmt_ok"); if *m { stats.inc("fmt_modified"); } else { stats.inc("fmt_unmodified"); } }
                              Outcome::Err(_) => stats.inc("fmt_err"), Outcome::Panic(_) => stats.inc("fmt_panic"), Outcome::Hang => { stats.inc("fmt_hang"); hangs += 1; } }
             if hangs > 3 { eprintln!("c15: too many hangs, stopping"); break; }
